@@ -90,7 +90,7 @@ theorem C05_completed_exactly_once (cfg : Cfg) (evs : List Ev) (h : (reach cfg e
 theorem C05_close_idempotent (cfg : Cfg) (s : St) (u : Nat) (hc : s.closed = true) (hu : s.status (.U u) = .absent) :
     (step cfg s (.callClose u)).trace = s.trace ++ [.ret u .ok] ∧
     (step cfg s (.callClose u)).cstage = s.cstage := by
-  simp [step, hu, enterClose, hc, St.setStatus, runCont, St.emit, St.finish, CRes.toRes]
+  simp [step, hu, enterClose, hc, St.setStatus, St.setProg, runCont, St.emit, St.finish, CRes.toRes]
 
 /-! ### non-vacuity: concrete lifetimes -/
 
